@@ -516,10 +516,12 @@ func (info *decodeInfo) decodeCharString(code []byte) (*Glyph, error) {
 				}
 				n := int(stack[k])
 				j := int(stack[k+1])
-				if n <= 0 || n > k {
+				if n < 0 || n > k {
 					return nil, errors.New("invalid roll count")
 				}
-				roll(stack[k-n:k], j)
+				if n > 0 {
+					roll(stack[k-n:k], j)
+				}
 				stack = stack[:k]
 			case t2dup:
 				k := len(stack) - 1
